@@ -303,6 +303,15 @@ def generate(root, repo, log):
     writes = re.findall(r"syntax_level\s*(?:\+=|-=|=[^=])", lp)
     if len(writes) != 4:   # struct literal x2 in non-test code is `syntax_level: 0` (not matched); += 1, = saturating_sub, plus cfg(test)/verif literals are `:`
         log.append(f"note: syntax_level written at {len(writes)} places")
+    # kinds the Lua grammar passes to `set_current_token_kind` (Core's assumption: never a trivia / invalid kind)
+    set_kinds = []
+    for f in LUA_G:
+        src = clean(open(os.path.join(base, f)).read())
+        for mm in re.finditer(r"set_current_token_kind\s*\(\s*([^)]*)\)", src):
+            arg = mm.group(1).strip()
+            if arg.startswith("kind"):   # the definition's parameter
+                continue
+            set_kinds.append(arg.replace("LuaTokenKind::", ""))
     lines = ["/-! GENERATED by checklib/gen/tree_callgraph.py from crates/emmylua_parser/src — do not edit. -/",
              "namespace Gen.TreeCallGraph", "",
              "/-- extracted functions, `file:name` -/",
@@ -315,6 +324,8 @@ def generate(root, repo, log):
              "def rank : List Nat := [" + ", ".join(map(str, ranks)) + "]", "",
              f"def rankBound : Nat := {R}", "",
              f"/-- `LuaParser::MAX_SYNTAX_LEVELS` -/\ndef maxLevels : Nat := {max_levels}", "",
+             "/-- arguments of every `set_current_token_kind(…)` call of the Lua grammar -/",
+             "def setKindArgs : List String := [" + ", ".join('"%s"' % k for k in set_kinds) + "]", "",
              "end Gen.TreeCallGraph", ""]
     out = os.path.join(root, "lean", "EmmyVerif", "Gen", "TreeCallGraph.lean")
     os.makedirs(os.path.dirname(out), exist_ok=True)
@@ -323,7 +334,7 @@ def generate(root, repo, log):
         open(out, "w").write(text)
     return {"file": os.path.relpath(out, root), "functions": len(keys), "edges": len(edges),
             "guarded": [f"{keys[g][0]}:{keys[g][1]}" for g in guarded], "rank_bound": R, "max_levels": max_levels,
-            "external_method_names": len(external_methods)}
+            "external_method_names": len(external_methods), "set_kind_args": sorted(set(set_kinds))}
 
 
 if __name__ == "__main__":
